@@ -93,6 +93,45 @@ func CollectRaceReports(c *Ctx) {
 	c.Run.Count("race_log_files", int64(len(files)))
 }
 
+// RaceReportKeys returns the deduplicated keys (repo frames) of the race reports found in a work directory; used by
+// the parent process when the child did not live to report them itself.
+func RaceReportKeys(workdir string) []string {
+	files, _ := filepath.Glob(filepath.Join(workdir, "racelog*"))
+	seen := map[string]bool{}
+	var out []string
+	for _, f := range files {
+		b, err := os.ReadFile(f)
+		if err != nil {
+			continue
+		}
+		for _, blk := range strings.Split(string(b), "==================") {
+			if !raceHdr.MatchString(blk) {
+				continue
+			}
+			var frames []string
+			for _, l := range strings.Split(blk, "\n") {
+				l = strings.TrimSpace(l)
+				if strings.HasPrefix(l, "github.com/zitadel/saml/") {
+					if i := strings.IndexByte(l, '('); i > 0 {
+						l = l[:i]
+					}
+					frames = append(frames, l)
+				}
+			}
+			key := clipS(strings.Join(frames, " <- "), 300)
+			if len(frames) == 0 || seen[key] {
+				continue
+			}
+			seen[key] = true
+			out = append(out, key)
+			if len(out) == 20 {
+				return out
+			}
+		}
+	}
+	return out
+}
+
 func clipS(s string, n int) string {
 	if len(s) > n {
 		return s[:n] + "…"
